@@ -10,7 +10,7 @@
 From stdpp Require Import gmap.
 From Coq Require Import ZArith NArith List Bool Lia.
 From Synnax Require Import Common.Telem Common.TelemProofs
-  Cesium.Domain Cesium.DomainProofs Cesium.DomainInv.
+  Cesium.Domain Cesium.DomainProofs Cesium.DomainInv Monitors.Mon_C03 Monitors.Mon_C03_Sound.
 Import ListNotations.
 Local Open Scope Z_scope.
 
@@ -90,6 +90,46 @@ Proof.
 Qed.
 Print Assumptions C03_repechage_finds.
 
+(* The side condition of [legal] for a DeleteC holds whenever no nested commit is an update
+   of one of the two captured domains — e.g. the concurrent writers are fresh or work on
+   other domains, which is all the control gate of unary.DB.delete lets through. *)
+Theorem C03_delete_during_commits_legal : forall st a b sops eops,
+  Inv st -> ts_in_range a -> ts_in_range b ->
+  (forall sd s so a', delete_start lin_resolver (d_ptrs st) a = inl (Some (sd, s, so, a')) ->
+     let called1 := snd (usearch (d_ptrs st) (ts_span_range a 0)) in
+     let st1 := if called1 then wrun st sops else st in
+     (called1 = true -> wlegal_run st sops /\ no_update_run st sops s) /\
+     forall ed e eo b', delete_end lin_resolver (d_ptrs st1) b = inl (Some (ed, e, eo, b')) ->
+       let called2 := snd (usearch (d_ptrs st1) (ts_span_range b 0)) in
+       (called2 = true -> wlegal_run st1 eops /\ no_update_run st1 eops s /\ no_update_run st1 eops e)) ->
+  legal st (DeleteC a b sops eops).
+Proof.
+  intros st a b sops eops HI Ha Hb H. split; [split; assumption|].
+  apply delc_legal_intro; assumption.
+Qed.
+Print Assumptions C03_delete_during_commits_legal.
+
+(* The invariant clause of the monitor (ordering, non-overlap, within files, everything
+   readable) accepts every state of every legal history of the model, including the states
+   between the writer operations nested in a delete: it raises no alarm that the theorems
+   exclude. *)
+Theorem C03_monitor_invariant_sound : forall nominal cap ops,
+  legal_run (init nominal cap) ops ->
+  Forall (fun sr => inv_ok (m_obs (fst sr)) = true) (trace (init nominal cap) ops).
+Proof.
+  intros nominal cap ops Hl. eapply Forall_impl; [|apply C03_inv_every_state; eassumption].
+  intros sr H. apply inv_ok_sound. exact H.
+Qed.
+Print Assumptions C03_monitor_invariant_sound.
+
+Theorem C03_monitor_invariant_sound_nested : forall st o,
+  Inv st -> legal st o -> Forall (fun sr => inv_ok (m_obs (fst sr)) = true) (step_nested st o).
+Proof.
+  intros st o HI Hl. eapply Forall_impl; [|apply step_nested_inv; eassumption].
+  intros sr H. apply inv_ok_sound. exact H.
+Qed.
+Print Assumptions C03_monitor_invariant_sound_nested.
+
 (* With no writer acting inside the resolvers, DeleteC is Delete. *)
 Theorem C03_delete_c_nil : forall st a b, fst (delete_c st a b [] []) = step st (Delete a b).
 Proof. exact delete_c_nil. Qed.
@@ -106,7 +146,7 @@ Print Assumptions C03_uncommitted_ops_invisible.
    pointer of the index, in order. *)
 Theorem C03_committed_is_readable : forall st, Inv st ->
   readable st = map (fun p => (p_tr p, p_size p, content (d_files st) p)) (d_ptrs st).
-Proof. exact readable_all. Qed.
+Proof. exact DomainInv.readable_all. Qed.
 Print Assumptions C03_committed_is_readable.
 
 (* (3) A writer whose start lies inside existing data fails to open (write-conflict
